@@ -31,7 +31,8 @@ ASSUMPTIONS = [
     "validators are pure functions of the frame content",
     "held means: held on the executions listed in coverage",
 ]
-USES = ("complete-list", "complete-callback", "complete-generator", "partial-suspended", "partial-closed", "partial-collected", "never-started")
+USES = ("complete-list", "complete-callback", "complete-generator", "partial-suspended", "partial-closed", "partial-collected", "never-started",
+        "complete-generator-second-created-first")
 
 
 def first_use(tk, v1, kind, use, j):
@@ -78,8 +79,18 @@ def check_pair(ctx, v1, v2, params, kind, use, j, fresh_cache=None):
     case = {"v1": "".join("A" if x else "a" for x in v1), "v2": "".join("A" if x else "a" for x in v2), "params": list(params),
             "kind": kind, "use": use, "j": j}
     try:
-        keep = first_use(tk, v1, kind, use, j)
-        second = tok.spans(tok.deliver(tk, tok.CountingSource(frames2), ("list", "generator", "callback")[len(v1) % 3]))
+        if use == "complete-generator-second-created-first":
+            # both generators are created up front; the first is run to completion, only then is the second consumed
+            frames1, _ = tok.FRAME_KINDS[kind](v1)
+            g1 = tk.tokenize(tok.CountingSource(frames1), generator=True)
+            g2 = tk.tokenize(tok.CountingSource(frames2), generator=True)
+            for _ in g1:
+                pass
+            keep = None
+            second = [(t[1], t[2]) for t in g2]
+        else:
+            keep = first_use(tk, v1, kind, use, j)
+            second = tok.spans(tok.deliver(tk, tok.CountingSource(frames2), ("list", "generator", "callback")[len(v1) % 3]))
     except Exception as exc:
         ctx.case(repr(case), True)
         ctx.violation("exception:" + type(exc).__name__, {"case": case, "exception": repr(exc)[:200]})
@@ -155,6 +166,21 @@ def repeated_split(ctx, conf):
                 rr.append(regions_of(auditok.split(rec, **rkw)))
                 rec.rewind()
             runs["recorder"] = rr
+            # one AudioReader over bytes: split it, close it, split it again (close() returns an in-memory source to its start)
+            if case["w"] == case["block"] / case["rate"]:
+                rd = auditok.AudioReader(data, block_dur=case["w"], **AC.audio_kwargs(case))
+                rr2 = []
+                for k in range(3):
+                    rr2.append(regions_of(auditok.split(rd, **rkw)))
+                    rd.close()
+                runs["reader_closed_and_reused"] = rr2
+                # ... also when the earlier use stopped half way
+                rd2 = auditok.AudioReader(data, block_dur=case["w"], **AC.audio_kwargs(case))
+                rd2.open()
+                for _ in range(case["pcm_seed"] % 4):
+                    rd2.read()
+                rd2.close()
+                runs["reader_partly_read_closed_and_reused"] = [regions_of(auditok.split(rd2, **rkw))]
             # interleaved: a second split() started while the first generator is half consumed
             g1 = reg.split(**kw)
             first = []
